@@ -590,7 +590,7 @@ def main(prop, tier, seed):
         'wall_s': round(wall, 1), 'violations': 1 if viol else 0,
     }
     os.makedirs(os.path.join(ROOT, 'evidence'), exist_ok=True)
-    with open(os.path.join(ROOT, 'evidence', 'C05.json'), 'w') as f:
+    with open(os.path.join(ROOT, 'evidence', 'C05.json') if not os.environ.get('VERIF_NO_EVIDENCE') else os.devnull, 'w') as f:
         json.dump(ev, f, indent=1, default=str)
     print('C05 tier=%s: %d function pairs compared, %d structural differences, dispatch query %s, %s, %.0fs' % (
         tier, pairs_done, len(diffs), dispatch['z3'] if dispatch else 'n/a', 'VIOLATION' if viol else ('INCONCLUSIVE' if incon else 'identical'), wall))
